@@ -385,11 +385,11 @@ pub const FLOW: &[&str] = &["div", "p", "span", "ul", "li", "a", "b", "section",
 pub const VOIDS: &[&str] = &["br", "img", "meta", "link", "hr", "input"];
 const TEXTS: &[&str] = &[
     "hello", "Yolo", " ", "a b c", "x", "1 &lt; 2", "&amp;", "&nbsp;", "caf\u{e9}", "\u{20ac}uro", "\u{1f600}", "na\u{ef}ve \u{4e2d}\u{6587}", "a < b", "x<0 and y>0",
-    "i<3", "<", ">", "\n", "\t", "tail<", "5</", "</", "< /p>", "&", "\u{e9}\u{e9}",
+    "i<3", "<", ">", "\n", "\t", "tail<", "5</", "</", "< /p>", "&", "\u{e9}\u{e9}", "\u{1d11e}", "x\u{1f600}y", "\u{1f600}\u{1f600}", "\u{20ac}<", "\u{1f600}<",
 ];
 const ATTRS: &[&str] = &[
     " class=\"page\"", " id=main", " data-x='1'", " hidden", " title=\"a > b\"", " title='<p>'", " href=\"/a?b=1&amp;c=2\"", " a=b c=d", " x = \"y\"", " q=\"it's\"", " r='say \"hi\"'",
-    " data-\u{e9}=\"\u{e9}\"", "\n  lang=\"fr\"", " u=v/", " =z", " \"", " k=", " k= ", " a=\">\"",
+    " data-\u{e9}=\"\u{e9}\"", " t=\u{1f600}", " u='\u{1d11e}\u{20ac}'", " \u{1f600}", "\n  lang=\"fr\"", " u=v/", " =z", " \"", " k=", " k= ", " a=\">\"",
 ];
 const COMMENTS: &[&str] = &[
     "<!-- c -->", "<!---->", "<!-- <p>in comment</p> -->", "<!--a--b-->", "<!-- x --!>", "<!-->", "<!--->", "<!-- </div> -->", "<!--\u{e9}-->", "<!-- - -- > -->",
@@ -1134,8 +1134,21 @@ pub fn utf8_split(d: &[u8]) -> Option<(Vec<u8>, Vec<u8>)> {
     }
 }
 
-/// `safeCutB tk L x y` of Proofs/FilterSplit.lean evaluated with the real tokenizer
-pub fn safe_cut_sem(l: &[u8], x: &[u8], y: &[u8]) -> bool {
+/// `normText`: merge adjacent text tokens
+pub fn norm_text(ts: &[RTok]) -> Vec<RTok> {
+    let mut out: Vec<RTok> = Vec::new();
+    for t in ts {
+        match out.last_mut() {
+            Some(l) if l.ty == 0 && t.ty == 0 => l.raw.extend_from_slice(&t.raw),
+            _ => out.push(t.clone()),
+        }
+    }
+    out
+}
+
+/// `safeCutTB tk L x r` of Proofs/FilterTotal.lean evaluated with the REAL tokenizer:
+/// the hypothesis of Rio.C03.chunk_invariant_partial at one cut (L = last_buffer, x = chunk, r = all that follows)
+pub fn safe_cut_sem(l: &[u8], x: &[u8], r: &[u8]) -> bool {
     let mut lx = l.to_vec();
     lx.extend_from_slice(x);
     let (a1, p1) = match utf8_split(&lx) {
@@ -1149,9 +1162,9 @@ pub fn safe_cut_sem(l: &[u8], x: &[u8], y: &[u8]) -> bool {
     if std::str::from_utf8(&tail).is_err() {
         return false;
     }
-    let mut py = p1.clone();
-    py.extend_from_slice(y);
-    let (a2, _) = match utf8_split(&py) {
+    let mut pr = p1.clone();
+    pr.extend_from_slice(r);
+    let (a2, _) = match utf8_split(&pr) {
         None => return true,
         Some(v) => v,
     };
@@ -1161,14 +1174,7 @@ pub fn safe_cut_sem(l: &[u8], x: &[u8], y: &[u8]) -> bool {
     t2.extend_from_slice(&a2);
     let (ts2, r2) = rtokenize(&t2);
     let (tsw, rw) = rtokenize(&whole);
-    let mut expect = todo1.clone();
-    expect.extend(ts2.iter().cloned());
-    if tsw != expect || rw != r2 {
-        return false;
-    }
-    let (todo2, h2) = split_held(ts2);
-    let (todow, hw) = split_held(expect);
-    let mut e2 = todo1;
-    e2.extend(todo2);
-    todow == e2 && hw == h2
+    let mut expect = todo1;
+    expect.extend(ts2);
+    norm_text(&tsw) == norm_text(&expect) && rw == r2
 }
